@@ -19,3 +19,22 @@ def canon(v):
     if isinstance(v, bytearray):
         return f"bytearray:{bytes(v)!r}"
     return f"other:{t}:{v!r}"
+
+
+def scramble(v):
+    """Modify a loaded value in place wherever Python allows it — what a careless dependent may do with ITS copy. Other
+    dependents and later loads must still receive the value that was saved."""
+    if isinstance(v, list):
+        for x in v:
+            scramble(x)
+        v.append("scrambled")
+        v.reverse()
+    elif isinstance(v, tuple):
+        for x in v:
+            scramble(x)
+    elif isinstance(v, dict):
+        for x in v.values():
+            scramble(x)
+        v["scrambled"] = True
+    elif isinstance(v, (set, bytearray)):
+        v.clear()
